@@ -1,8 +1,9 @@
 import BipVerif.Driver.Codec
 import BipVerif.Driver.Bip32
+import BipVerif.Driver.Mnemonic
 open BipVerif.Driver
 
-def allOps : List (String × Op) := codecOps ++ bip32Ops
+def allOps : List (String × Op) := codecOps ++ bip32Ops ++ mnemonicOps
 
 def handle (line : String) : String :=
   match (line.trimAscii.toString.splitOn " ").filter (· ≠ "") with
